@@ -495,6 +495,9 @@ def check_spec(spec, acct, known=(), only_probe=None):
       if k == 'within_percent':
         if gm and not exp:
           bad('C07/within_percent/marginal-outside-tolerance', case, '%s is_marginal(%r) but value is outside tolerance' % (v, p))
+        if mexc is not None and exc is None and isinstance(p, (int, float)) and not isinstance(p, bool) and p == p:
+          # a validly constructed validator that decides a number also says whether it is marginal
+          bad('C07/within_percent/is_marginal-raised', case, '%s accepts/rejects %r but is_marginal(%r) raised %s' % (v, p, p, mexc))
       elif exp_marg is not None and gm != exp_marg:
         bad('C07/%s/marginal-%s' % (k, 'spurious' if gm else 'missed'), case,
             '%s is_marginal(%r)=%s expected %s exc=%s' % (v, p, gm, exp_marg, mexc))
